@@ -291,6 +291,16 @@ void StatusPrinter::BuildStarted() {
 void StatusPrinter::BuildFinished() {
   printer_.SetConsoleLocked(false);
   printer_.PrintOnNewLine("");
+
+  // The plan of this build is gone: forget what it contributed to the totals.
+  // The same status object is used again when the manifest was regenerated,
+  // and the next build's plan must not be counted on top of this one.
+  total_edges_ = 0;
+  eta_predictable_edges_total_ = 0;
+  eta_predictable_cpu_time_total_millis_ = 0;
+  eta_predictable_edges_remaining_ = 0;
+  eta_predictable_cpu_time_remaining_millis_ = 0;
+  eta_unpredictable_edges_remaining_ = 0;
 }
 
 string StatusPrinter::FormatProgressStatus(const char* progress_status_format,
